@@ -3,6 +3,11 @@ import json, os, sys
 sys.path.insert(0, os.path.dirname(os.path.abspath(__file__)))
 from manifest_entries import CHECKS, NOT_APPLICABLE
 ALL = ['C%02d' % i for i in range(1, 21)]
+import glob
+for f in sorted(glob.glob(os.path.join(os.path.dirname(os.path.abspath(__file__)), 'manifest_entries.d', 'C*.json'))):
+    pid = os.path.basename(f)[:-5]
+    d = json.load(open(f))
+    if d.get('enabled', True) and all(k in d for k in ('text', 'note', 'technique')): CHECKS[pid] = d
 checks = []
 for pid in ALL:
     if pid not in CHECKS: continue
